@@ -246,7 +246,8 @@ fn model_atan2(y: &Jet<f64>, x: &Jet<f64>, b: &Basis) -> (Vec<f64>, Vec<f64>) {
         pm = pm.mul(&wm, b);
         let s = if k % 2 == 1 { 1.0 } else { -1.0 } / k as f64;
         im = im.add(&pi.scale(&s));
-        mag = mag.add(&pm.scale(&(2.0 / k as f64)));
+        // the crate goes through a quotient and atan's closed forms: charge 4 units per term
+        mag = mag.add(&pm.scale(&(4.0 / k as f64)));
     }
     im.c[0] = y0.atan2(x0);
     mag.c[0] = im.c[0].abs();
